@@ -71,7 +71,7 @@ def run(tier, seed):
     # non-zero first step, with an LDE blowup above the constraint-evaluation blowup: derived from generated statements by
     # raising the trace length (admissibility is unaffected: same options, longer trace, schedule stays well-formed)
     large = []
-    for s in [x for x in stmts if x["t"]["width"] >= 4 and x["t"]["ln"] >= 5 and x["t"]["lb"] >= 2 and max(x["t"]["degs"]) <= 3
+    for s in [x for x in stmts if not x["t"]["auxd"] and x["t"]["width"] >= 4 and x["t"]["ln"] >= 5 and x["t"]["lb"] >= 2 and max(x["t"]["degs"]) <= 3
               and x["t"]["fold"] <= 8 and x["t"]["rem"] <= 31][:4 if tier == "quick" else 16]:
         for ln, first in ((7, 1), (7, 0), (8, 3)) if tier == "thorough" else ((7, 1), (7, 0)):
             t = dict(s["t"], ln=ln, nasserts=5)
@@ -82,11 +82,13 @@ def run(tier, seed):
             a[4] = dict(kind="single", col=3, first=5, stride=0, count=1)
             large.append(dict(s, t=t, asserts=a, ccols=0, layers=0))
     scs = [starkgen.scenario(t, i, seed) for i, t in enumerate(stmts + large)]
+    lowdeg = [sc for sc in scs if starkgen.low_degree(sc)]
+    scs = [sc for sc in scs if not starkgen.low_degree(sc)]
     obs = run_scenarios(exe, "complete", scs, wd, "complete_dbg")
     ok = sum(1 for sc, o in zip(scs, obs) if judge_complete(v, sc, o, "dbg"))
     log("[replay] %d statements proved+verified+round-tripped in the debug build, %d ok" % (len(scs), ok))
     # degenerate traces (constant columns): judged in the build without debug assertions
-    deg = []
+    deg = list(lowdeg)
     for i, t in enumerate(stmts[:: max(1, len(stmts) // (20 if tier == "quick" else 200))]):
         sc = starkgen.scenario(t, 100000 + i, seed)
         sc["shape"]["mode"] = "copy"
